@@ -348,6 +348,16 @@ func (g *schemaGenerator) generateDeclaredType(t *schemas.Type, scope nameScope)
 			g.generateUnmarshaler(decl, validators)
 		}
 
+	case codegen.ArrayType:
+		validators = g.structFieldValidators(nil, codegen.StructField{
+			Type:       &tt,
+			SchemaType: t,
+		}, &tt, false)
+
+		if t.IsSubSchemaTypeElem() || len(validators) > 0 {
+			g.generateUnmarshaler(decl, validators)
+		}
+
 	case codegen.MapType, *codegen.MapType:
 		if t.IsSubSchemaTypeElem() {
 			g.generateUnmarshaler(decl, []validator{})
